@@ -550,4 +550,140 @@ example : substring (listExp [['p'], ['q'], ['r']] false) false (-2) (some 1) = 
     substring (listExp [['p']] false) false 1 (some (-2)) = .ok (listExp [] false) ∧
     substring (listExp [shellName] true) true 1 (some (-1)) = .err := by decide
 
+/-! ## indirection `${!ref…}`: a two-stage lookup -/
+
+/-- the reference holds the text `name` (scalar, array element or positional) -/
+def RefHolds (ref : Param) (name : Str) : Prop :=
+  ref = .named (some name) ∨ (∃ ex, ref = .elem (some name) ex) ∨ ref = .pos (some name)
+
+/-- the reference has no value -/
+def RefUnset (ref : Param) : Prop :=
+  ref = .named none ∨ (∃ ex, ref = .elem none ex) ∨ ref = .pos none
+
+private theorem expandIndirect_holds (ref : Param) (name : Str) (env : Str → Option Param) (t : Param)
+    (a nounset : Bool) (hr : RefHolds ref name) (ht : env name = some t) :
+    expandIndirect ref env a nounset = expandParam t a nounset := by
+  have hj : fieldsToString (ofStr name) = name := by simp [fieldsToString, ofStr, joinWith]
+  rcases hr with rfl | ⟨ex, rfl⟩ | rfl <;> simp only [expandIndirect, expandParam, hj, ht]
+
+private theorem assign_only_from_assignDefault (op : TestOp) (colon : Bool) (st : PState)
+    (h : testAction op colon st = .assign) : op = .assignDefault := by
+  cases op <;> cases colon <;> cases st <;> first | rfl | cases h
+
+/-- operators whose result does not depend on *which* parameter is written in the braces:
+everything except `${#…}` (no indirect form), `=` (assigns to what is written) and the `$@` slice
+(which puts `$0` in front of what is written) -/
+def SameThroughReference (t : Param) : Op → Prop
+  | .len => False
+  | .test .assignDefault _ _ => False
+  | .sub _ _ => match t with
+    | .posAll _ _ => False
+    | _ => True
+  | _ => True
+
+/-- **`${!ref op w}` is `${target op w}`**: when the reference holds the text of a parameter, every
+operator — plain, `- :- + :+ ? :?`, `# ## % %%`, `:offset:length` — yields through the reference
+exactly the outcome it yields on the target written directly, for every state of the target (set,
+null, unset, list), **with nounset on or off**.  (The target is looked up with the same
+`allow_unset_vars` as the operator uses directly: an unset target under `set -u` is tolerated by
+exactly the operators that tolerate it when written directly.) -/
+theorem indirect_eq_target (ref : Param) (name : Str) (env : Str → Option Param) (t : Param)
+    (nounset : Bool) (m : Str → Bool) (op : Op)
+    (hr : RefHolds ref name) (ht : env name = some t) (hop : SameThroughReference t op) :
+    expandExprInd ref env nounset m op = expandExpr t nounset m op := by
+  have h := fun a => expandIndirect_holds ref name env t a nounset hr ht
+  cases op with
+  | plain => simp only [expandExprInd, expandExpr, h]
+  | len => exact absurd hop (by simp [SameThroughReference])
+  | sub off len =>
+    simp only [expandExprInd, expandExpr, h]
+    cases t with
+    | posAll vals star => exact absurd hop (by simp [SameThroughReference])
+    | named v => rfl
+    | elem v ex => rfl
+    | pos v => rfl
+    | all vals star => rfl
+  | test k colon word =>
+    cases k with
+    | assignDefault => exact absurd hop (by simp [SameThroughReference])
+    | useDefault =>
+      simp only [expandExprInd, expandExpr, h]
+      cases expandParam t true nounset with
+      | none => rfl
+      | some e =>
+        simp only []
+        cases hta : testAction .useDefault colon (classify e) with
+        | assign => exact absurd (assign_only_from_assignDefault _ _ _ hta) (by decide)
+        | param => rfl
+        | word => rfl
+        | error => rfl
+        | null => rfl
+    | errorIfUnset =>
+      simp only [expandExprInd, expandExpr, h]
+      cases expandParam t true nounset with
+      | none => rfl
+      | some e =>
+        simp only []
+        cases hta : testAction .errorIfUnset colon (classify e) with
+        | assign => exact absurd (assign_only_from_assignDefault _ _ _ hta) (by decide)
+        | param => rfl
+        | word => rfl
+        | error => rfl
+        | null => rfl
+    | useAlternative =>
+      simp only [expandExprInd, expandExpr, h]
+      cases expandParam t true nounset with
+      | none => rfl
+      | some e =>
+        simp only []
+        cases hta : testAction .useAlternative colon (classify e) with
+        | assign => exact absurd (assign_only_from_assignDefault _ _ _ hta) (by decide)
+        | param => rfl
+        | word => rfl
+        | error => rfl
+        | null => rfl
+  | rm k hasPat => simp only [expandExprInd, expandExpr, h]
+
+/-- `=` through a reference substitutes what it substitutes on the target; what it *assigns to* is
+the reference (recorded finding `indirect_assign_default_assigns_reference`: bash assigns the target). -/
+theorem indirect_assign_result_eq_target (name : Str) (env : Str → Option Param) (v : Option Str)
+    (nounset : Bool) (m : Str → Bool) (colon : Bool) (word : Str) (ht : env name = some (.named v)) :
+    (expandExprInd (.named (some name)) env nounset m (.test .assignDefault colon word)).res =
+      (expandExpr (.named v) nounset m (.test .assignDefault colon word)).res := by
+  have h := fun a => expandIndirect_holds (.named (some name)) name env (.named v) a nounset (Or.inl rfl) ht
+  simp only [expandExprInd, expandExpr, h]
+
+/-- The testing operators through a reference compute bash's outcome on the target, for every
+state of the target, with nounset on or off. -/
+theorem indirect_test_ops_refine_bash (ref : Param) (name : Str) (env : Str → Option Param) (t : Param)
+    (nounset : Bool) (m m' : Str → Bool) (op : TestOp) (colon : Bool) (word : Str)
+    (hr : RefHolds ref name) (ht : env name = some t) (hop : op ≠ .assignDefault) :
+    expandExprInd ref env nounset m (.test op colon word) = bashExpr t nounset m' (.test op colon word) := by
+  rw [indirect_eq_target ref name env t nounset m _ hr ht (by cases op <;> simp_all [SameThroughReference])]
+  exact test_ops_refine_bash t nounset m m' op colon word
+
+/-- A reference without a value cannot be followed: every `${!ref…}` fails, whatever the operator
+and whether or not nounset is on (the empty text names no parameter). -/
+theorem indirect_unset_reference_fails (ref : Param) (env : Str → Option Param) (nounset : Bool)
+    (m : Str → Bool) (op : Op) (hr : RefUnset ref) (he : env [] = none) (hop : op ≠ .len) :
+    (expandExprInd ref env nounset m op).res = .err := by
+  have h : ∀ a, expandIndirect ref env a nounset = none := by
+    intro a
+    have hj : fieldsToString undefinedExp = [] := by simp [fieldsToString, undefinedExp, joinWith]
+    rcases hr with rfl | ⟨ex, rfl⟩ | rfl <;>
+      (simp only [expandIndirect, expandParam, undefinedExpansion]; split <;> simp_all)
+  cases op with
+  | len => exact absurd rfl hop
+  | plain => simp only [expandExprInd, h]
+  | sub off len => simp only [expandExprInd, h]
+  | test k colon word => simp only [expandExprInd, h]
+  | rm k hasPat => simp only [expandExprInd, h]
+
+example : RefHolds (.named (some ['v'])) ['v'] ∧
+    expandExprInd (.named (some ['v'])) (fun n => if n = ['v'] then some (.named none) else none) true
+      (fun _ => false) (.test .useDefault false ['w']) = { res := .ok (ofStr ['w']) } ∧
+    (expandExprInd (.named (some ['v'])) (fun n => if n = ['v'] then some (.named none) else none) true
+      (fun _ => false) .plain).res = .err := by
+  refine ⟨Or.inl rfl, by decide, by decide⟩
+
 end BrushVerif.C06
